@@ -43,7 +43,7 @@ func runDiscCase(c *simk.Case) *simk.Result {
 	for k := c.CfgInt("n", 2); k > 0; k-- {
 		eid := bpv7.MustNewEndpointID(fmt.Sprintf("dtn://node%d/", r.Intn(1000)))
 		if r.Bool(0.3) {
-			eid = bpv7.MustNewEndpointID(fmt.Sprintf("ipn:%d.%d", r.Range(1, 70000), r.Range(0, 70000)))
+			eid = bpv7.MustNewEndpointID(fmt.Sprintf("ipn:%d.%d", r.Range(1, 70000), r.Range(1, 70000)))
 		}
 		as = append(as, Announcement{Type: cla.CLAType(r.Intn(2)), Endpoint: eid, Port: uint(r.Range(1, 65535))})
 	}
